@@ -340,7 +340,7 @@ def run(ctx):
     # 1. design check
     mod, qcfg, tcfg, desc = DESIGN[pid]
     cfg = qcfg if ctx.quick else tcfg
-    mc = vlib.tlc(mod, cfg, ctx.path("mc"), workers=vlib.NCPU, timeout=600 if ctx.quick else 2400)
+    mc = vlib.tlc(mod, cfg, ctx.path("mc"), workers=vlib.NCPU, timeout=600 if ctx.quick else 3600)
     if not mc["ok"]:
         raise vlib.Inconclusive("design model check did not pass: violated=%s error=%s\n%s" % (mc["violated"], mc["error"], mc["out"][-3000:]))
 
